@@ -17,7 +17,7 @@ PARAM_SETS = [
 ]
 
 
-def gen_domain(rng, n_actions=4, with_forall=True, with_numeric=True, noise=False, with_shadow=False):
+def gen_domain(rng, n_actions=4, with_forall=True, with_numeric=True, noise=False, with_shadow=False, with_eqonly=False):
     acts = []
     if noise:
         # fluent values that are not short decimals (float noise, thirds): no comparison reads them, so the
@@ -29,7 +29,7 @@ def gen_domain(rng, n_actions=4, with_forall=True, with_numeric=True, noise=Fals
                                                               L(S("*"), L(S("g")), {"t": "n", "v": [1, 100000], "txt": "0.00001"})))))
     for i in range(n_actions):
         params = rng.choice(PARAM_SETS)
-        g = Gen(rng, params, with_forall=with_forall, with_numeric=with_numeric, with_shadow=with_shadow)
+        g = Gen(rng, params, with_forall=with_forall, with_numeric=with_numeric, with_shadow=with_shadow, with_eqonly=with_eqonly)
         # keep preconditions light so that walks stay alive
         pre = g.pre() if rng.random() < 0.6 else L(S("and"), g.lit())
         acts.append((f"a{i}", params, pre, g.eff()))
